@@ -192,6 +192,7 @@ type Sched struct {
 	choose   Chooser
 	maxSteps int
 	killing  bool
+	late     map[*Task]bool // tasks whose final event arrived while another task was being waited for
 	exec     *Exec
 	closedCh map[uintptr]reflect.Value
 	trace    bool
@@ -315,12 +316,27 @@ func Run(cfg Config, root func()) *Exec {
 			s.exec.Blocked = append(s.exec.Blocked, Blocked{Task: t.Name, Op: t.op.String()})
 		}
 	}
+	// Unwind the parked tasks one at a time (their deferred calls run with
+	// the shims inert). A task whose deferred code blocks on a real lock that
+	// a task killed later still holds (a sync.Once in progress, a mutex) is a
+	// straggler: it finishes once that task has been unwound, and is waited
+	// for again at the end; only what is still blocked then is leaked.
 	s.killing = true
+	var stragglers []*Task
 	for _, t := range s.tasks {
 		if t.state == stDone {
 			continue
 		}
-		if !t.sendKill() || !s.waitEventTimeout(2*time.Second) {
+		if !t.sendKill() {
+			s.exec.Leaked++
+			continue
+		}
+		if !s.waitEventOf(t, 2*time.Second) {
+			stragglers = append(stragglers, t)
+		}
+	}
+	for _, t := range stragglers {
+		if !s.waitEventOf(t, 2*time.Second) {
 			s.exec.Leaked++
 		}
 	}
